@@ -96,6 +96,65 @@ ALL_TYPES = [
 ]
 
 
+_A = [3.3871328727963666080e0, 1.3314166789178437745e2, 1.9715909503065514427e3,
+      1.3731693765509461125e4, 4.5921953931549871457e4, 6.7265770927008700853e4,
+      3.3430575583588128105e4, 2.5090809287301226727e3]
+_B = [1.0, 4.2313330701600911252e1, 6.8718700749205790830e2, 5.3941960214247511077e3,
+      2.1213794301586595867e4, 3.9307895800092710610e4, 2.8729085735721942674e4,
+      5.2264952788528545610e3]
+_C = [1.42343711074968357734e0, 4.63033784615654529590e0, 5.76949722146069140550e0,
+      3.64784832476320460504e0, 1.27045825245236838258e0, 2.41780725177450611770e-1,
+      2.27238449892691845833e-2, 7.74545014278341407640e-4]
+_D = [1.0, 2.05319162663775882187e0, 1.67638483018380384940e0, 6.89767334985100004550e-1,
+      1.48103976427480074590e-1, 1.51986665636164571966e-2, 5.47593808499534494600e-4,
+      1.05075007164441684324e-9]
+_E = [6.65790464350110377720e0, 5.46378491116411436990e0, 1.78482653991729133580e0,
+      2.96560571828504891230e-1, 2.65321895265761230930e-2, 1.24266094738807843860e-3,
+      2.71155556874348757815e-5, 2.01033439929228813265e-7]
+_F = [1.0, 5.99832206555887937690e-1, 1.36929880922735805310e-1, 1.48753612908506148525e-2,
+      7.86869131145613259100e-4, 1.84631831751005468180e-5, 1.42151175831644588870e-7,
+      2.04426310338993978564e-15]
+
+
+def _horner(coeffs, r):
+    acc = 0.0
+    for c in reversed(coeffs):
+        acc = acc * r + c
+    return acc
+
+
+def as241(u: float, known_defect: bool = False) -> float:
+    """Wichura's PPND16.  With known_defect=True the branch is selected the way the
+    recorded finding describes (|u| <= 0.45 instead of |u - 0.5| <= 0.425): used only to
+    recognise that exact defect, never as an oracle."""
+    q = u - 0.5
+    central = (abs(u) <= 0.45) if known_defect else (abs(q) <= 0.425)
+    if central:
+        r = 0.180625 - q * q
+        return q * _horner(_A, r) / _horner(_B, r)
+    r = u if q < 0 else 1.0 - u
+    if r <= 0:
+        return 0.0
+    r = math.sqrt(-math.log(r))
+    if r <= 5.0:
+        r -= 1.6
+        v = _horner(_C, r) / _horner(_D, r)
+    else:
+        r -= 5.0
+        v = _horner(_E, r) / _horner(_F, r)
+    return -v if q < 0 else v
+
+
+def matches_known_as241_defect(d, u) -> bool:
+    """Are the numbers exactly what the recorded AS241 branch defect produces from u?"""
+    d = np.asarray(d, dtype=float).ravel()
+    u = np.asarray(u, dtype=float).ravel()
+    if d.shape != u.shape:
+        return False
+    zb = np.array([as241(float(x), known_defect=True) for x in u])
+    return bool(np.all(np.abs(d - zb) <= 1e-12 + 1e-12 * np.abs(zb)))
+
+
 def quantile_close(d, z):
     return np.abs(d - z) <= QTOL_ABS + QTOL_REL * np.abs(z)
 
@@ -155,34 +214,38 @@ def judge_catalogue(spec) -> Outcome:
     else:
         unit = ndtr(a)
 
+    relation_verified = False
     if info['halton']:
-        if info['skip'] is not None:
-            ref = halton_ref(n, r, info['base'], info['skip'])
-        else:
-            # no skip advertised: any contiguous run of the base-b sequence is acceptable
-            ref = halton_ref(n, r, info['base'], 0)
+        if info['support'] == 'real':
+            # no skip advertised for the normal variants: any contiguous run of the base-b
+            # sequence is acceptable as the underlying uniform numbers
+            found = None
             for s_ in range(0, 65):
                 cand = halton_ref(n, r, info['base'], s_)
-                if np.allclose(unit, cand, rtol=0, atol=1e-6):
-                    ref = cand
+                if np.all(quantile_close(a, ndtri(cand))):
+                    found = ('ok', cand)
                     break
-        if info['support'] == 'unit':
-            ok = np.allclose(a, ref, rtol=0, atol=1e-14)
-        elif info['support'] == 'sym':
-            ok = np.allclose(a, 2 * ref - 1, rtol=0, atol=1e-14)
+                if matches_known_as241_defect(a, cand):
+                    found = ('defect', cand)
+                    break
+            if found is None:
+                out.fail(key('halton_sequence'),
+                         f'{name}({n},{r}) is not the normal quantile of a run of the radical-inverse '
+                         f'sequence of base {info["base"]}: Phi(first entries) = {unit.ravel()[:4].tolist()}')
+            elif found[0] == 'defect':
+                relation_verified = True
+                out.fail(f'as241_branch:catalogue:{name}',
+                         f'{name}: quantiles of its Halton numbers carry the AS241 branch defect')
+            else:
+                relation_verified = True
         else:
-            # first: is it the advertised sequence at all (loose), then: quantile accuracy
-            ok = np.allclose(unit, ref, rtol=0, atol=1e-6)
-            if ok and not np.all(quantile_close(a, ndtri(ref))):
-                i = int(np.argmax(np.abs(a - ndtri(ref))))
-                out.fail(key('quantile'),
-                         f'{name}: not the normal quantile of its Halton numbers: u={ref.ravel()[i]!r} '
-                         f'got {a.ravel()[i]!r} expected {ndtri(ref.ravel()[i])!r}')
-        if not ok:
-            out.fail(key('halton_sequence'),
-                     f'{name}({n},{r}) is not the radical-inverse sequence of base {info["base"]} '
-                     f'after skipping {info["skip"] if info["skip"] is not None else "any number in 0..64"}: first entries {unit.ravel()[:4].tolist()} '
-                     f'expected {ref.ravel()[:4].tolist()}')
+            ref = halton_ref(n, r, info['base'], info['skip'] or 0)
+            target = ref if info['support'] == 'unit' else 2 * ref - 1
+            if not np.allclose(a, target, rtol=0, atol=1e-14):
+                out.fail(key('halton_sequence'),
+                         f'{name}({n},{r}) is not the radical-inverse sequence of base {info["base"]} '
+                         f'after skipping {info["skip"]}: first entries {unit.ravel()[:4].tolist()} '
+                         f'expected {ref.ravel()[:4].tolist()}')
 
     half = r // 2
     if info['anti']:
@@ -193,14 +256,10 @@ def judge_catalogue(spec) -> Outcome:
         generated = unit[:, :half]
     else:
         generated = unit
-    if info['mlhs'] and generated.size > 0:
-        if info['support'] == 'real':
-            # strata on the uniform scale, allowing for the quantile round trip
-            v = np.sort(generated.ravel())
-            m = v.size
-            ok = bool(np.all(v >= np.arange(m) / m - 1e-9) and np.all(v <= (np.arange(m) + 1) / m + 1e-9))
-        else:
-            ok = strata_ok(generated)
+    if info['mlhs'] and generated.size > 0 and info['support'] != 'real':
+        # (normal variants: the strata are those of the underlying uniform numbers, which the
+        # family relation below ties to the UNIFORM_MLHS* entry checked here)
+        ok = strata_ok(generated)
         if not ok:
             out.fail(key('strata'),
                      f'{name}({n},{r}): generated part does not put one point in each of '
@@ -219,10 +278,14 @@ def judge_catalogue(spec) -> Outcome:
                     out.fail(key('sym_map'),
                              f'{name} is not 2u-1 of {base_name} under the same seed '
                              f'(max diff {np.max(np.abs(a - (2 * u - 1)))})')
-            else:
+            elif not (info['halton'] and relation_verified):
                 z = ndtri(u)
                 close = quantile_close(a, z)
-                if not np.all(close):
+                gen_a, gen_u = (a[:, :half], u[:, :half]) if info['anti'] else (a, u)
+                if not np.all(close) and matches_known_as241_defect(gen_a, gen_u):
+                    out.fail(f'as241_branch:catalogue:{name}',
+                             f'{name}: quantiles of {base_name} carry the AS241 branch defect')
+                elif not np.all(close):
                     i = int(np.argmax(np.where(close, 0, np.abs(a - z))))
                     loose = np.allclose(ndtr(a), u, rtol=0, atol=1e-6)
                     out.fail(key('quantile' if loose else 'underlying'),
@@ -297,7 +360,10 @@ def judge_quantile(spec) -> Outcome:
     z = ndtri(u).reshape(n, r)
     first = d[:, :r]
     close = quantile_close(first, z)
-    if not np.all(close):
+    if not np.all(close) and matches_known_as241_defect(first, u):
+        out.fail('as241_branch:get_normal_wichura_draws',
+                 f'quantiles of {u[:4].tolist()}... carry the AS241 branch defect')
+    elif not np.all(close):
         i = int(np.argmax(np.where(close, 0, np.abs(first - z))))
         out.fail('quantile:accuracy',
                  f'normal quantile of u={u[i]!r}: got {first.ravel()[i]!r}, '
